@@ -29,7 +29,8 @@ FXor(f, g) == [i \in 1..NW |-> <<Xor(f[i][1], g[i][1]), Xor(f[i][2], g[i][2])>>]
 \* ---- the tracker alphabet: gate records on the NW-wire register
 OneQ == {"Hadamard", "S", "PauliX", "PauliY", "PauliZ", "Identity"}
 GateRec(g, w) == [g |-> g, w |-> w, p |-> <<>>, x |-> <<>>, m |-> <<>>, mods |-> <<>>]
-Ops == {GateRec(g, <<i>>) : g \in OneQ, i \in 1..NW} \cup {GateRec("CNOT", <<i, j>>) : i \in 1..NW, j \in 1..NW \ {i}} \ {GateRec("CNOT", <<i, i>>) : i \in 1..NW}
+Ops == {GateRec(g, <<i>>) : g \in OneQ, i \in 1..NW}
+       \cup {GateRec("CNOT", <<ij[1], ij[2]>>) : ij \in {p \in (1..NW) \X (1..NW) : p[1] # p[2]}}
 
 \* ---- textbook update rules (local: pairs of the gate's own wires)
 ConjH(a) == <<a[2], a[1]>>
@@ -47,7 +48,8 @@ Letter(a) == IF a[1] = 1 THEN (IF a[2] = 1 THEN 2 ELSE 1) ELSE (IF a[2] = 1 THEN
 FrameM(f) == PauliM([i \in 1..NW |-> Letter(f[i])])
 OpU(op) == ApplyGate(Ident(2^NW), GateM(op), op.w, NW)
 \* C P C^dagger = c * P'   for some scalar c
-ConjSound(op, f, g) == Bind(OpU(op), LAMBDA u : EqUpToScalar(MatMul(MatMul(u, FrameM(f)), Dagger(u)), FrameM(g)))
+ConjM(op, f) == Bind(OpU(op), LAMBDA u : MatMul(MatMul(u, FrameM(f)), Dagger(u)))
+ConjSound(op, f, g) == EqUpToScalar(ConjM(op, f), FrameM(g))
 
 VARIABLES fr, prev, last
 vars == <<fr, prev, last>>
@@ -58,5 +60,5 @@ Next == \E op \in Ops : Step(op)
 Sound == last = None \/ ConjSound(last, prev, fr)
 Linear == \A op \in Ops : \A g \in Frames : Apply(op, FXor(fr, g)) = FXor(Apply(op, fr), Apply(op, g))
 \* the frame image is unique: no other frame satisfies the conjugation equation
-Unique == last = None \/ \A g \in Frames : g = fr \/ ~ConjSound(last, prev, g)
+Unique == last = None \/ Bind(ConjM(last, prev), LAMBDA c : \A g \in Frames : g = fr \/ ~EqUpToScalar(c, FrameM(g)))
 =============================================================================
